@@ -8,7 +8,7 @@ from props import e1util
 from props.e1util import unhex
 
 TIE = ["Nsq.Tie.Wire"]
-PROPS = ["Nsq.Props.C07"]
+PROPS = ["Nsq.Props.C07", "Nsq.Props.C07Path"]
 
 
 def run(ctx):
